@@ -255,7 +255,7 @@ def check2d(case):
 
 
 SUBCHECKS = [
-    SubCheck("shift1d", check1d, strategy=sim.with_units(strat1d), examples={"quick": 300, "thorough": 2000}, shards={"quick": 6, "thorough": 16}),
+    SubCheck("shift1d", check1d, strategy=sim.with_units(strat1d), examples={"quick": 420, "thorough": 2000}, shards={"quick": 6, "thorough": 16}),
     SubCheck("shift1d_large", check1d, strategy=strat1d_large, examples={"quick": 4, "thorough": 8}, shards={"quick": 5, "thorough": 12}),
     SubCheck("shift2d", check2d, strategy=sim.with_units(strat2d), examples={"quick": 150, "thorough": 1000}, shards={"quick": 4, "thorough": 16}),
 ]
